@@ -148,7 +148,9 @@ def build_harness(bdir, leg, flavour="asan", repo=None):
     hdir = os.path.join(VERIF, "harness")
     srcs = [os.path.join(hdir, s) for s in leg["src"]]
     common = [os.path.join(hdir, "common", f) for f in sorted(os.listdir(os.path.join(hdir, "common")))]
-    key = _file_hash(srcs + common)
+    headers = [os.path.join(hdir, f) for f in sorted(os.listdir(hdir)) if f.endswith(".h")]
+    extra = [os.path.join(hdir, f) for f in leg.get("deps", [])]
+    key = _file_hash(srcs + common + headers + extra)
     odir = os.path.join(bdir, "h")
     os.makedirs(odir, exist_ok=True)
     exe = os.path.join(odir, "%s-%s" % (leg["name"], key))
